@@ -63,7 +63,7 @@ PROPS = {
         "lean": "Originium.Props.C02",
         "suites": ["key", "db", "closerace"],
         "skeleton_funcs": DB_SKEL,
-        "trusted_base": DB_TB + ["recovery rebuilds handles from files: C11_table_roundtrip; wal replay after a clean Close is empty (the directory listing is checked by the suite)"] + ["extract/gotrans.go (DESIGN section 14) regenerates GenLevel.maxLevelIdx (levelManager.maxLevelIdx) from /repo on every run; LevelTie.maxLevelIdx_fresh (the next table name of a level is fresh) is part of this property's module; container/list is a list"] + ["extract/gotrans.go also regenerates GenDB.close (the order of the effects of DB.Close) and GenDB.openDB (Open: both recoveries, the re-seeding of the oracle from the largest version found, the start of the flusher); DBTie.close_table / open_table"],
+        "trusted_base": DB_TB + ["recovery rebuilds handles from files: C11_table_roundtrip; wal replay after a clean Close is empty (the directory listing is checked by the suite)"] + ["extract/gotrans.go (DESIGN section 14) regenerates GenLevel.maxLevelIdx (levelManager.maxLevelIdx) from /repo on every run; LevelTie.maxLevelIdx_fresh (the next table name of a level is fresh) is part of this property's module; container/list is a list"] + ["extract/gotrans.go also regenerates GenDB.close (the order of the effects of DB.Close) and GenDB.openDB (Open: both recoveries, the re-seeding of the oracle from the largest version found, the start of the flusher); DBTie.close_table / open_table", "extract/gotrans.go also regenerates GenLevel.recover (levelManager.recover: the directory scan, the removal of leftover tmp files, the loop over the sorted table files with its ten failure exits, the growth of the level list, the handle pushed per file); LevelTie.recover_table / stepFile_max / stepFile_handles; the file contents are function parameters (entriesOf, indexOf: what the decoders return, the codec suite's business), slices.Sort any function"],
         "assumptions": [],
         "explanation": "Close = drain + flush as model steps (always enabled), Open recomputes nextTs from stored versions = the old counter (maxTs_present)",
     },
@@ -201,7 +201,8 @@ PROPS = {
         "skeleton_funcs": [],
         "trusted_base": COMMON_TB + ["murmur3 is an arbitrary hash family (the harness feeds the real hash values to the model)",
                                      "floating point sizing of the filter: m > 0 is checked by the harness for n = 1..N, not proved",
-                                     "extract/gotrans.go (DESIGN section 14) regenerates GenFilter.add / contains / build (Filter.Add, Filter.Contains, filter.Build) from /repo on every run; FilterTie.add_eq / contains_eq / build_eq / code_no_false_negative are part of this property's module; a hash function's Write, Sum32, Reset is a pure function of its seed and the key, the bit slice is a list, New's results m and k are parameters"],
+                                     "extract/gotrans.go (DESIGN section 14) regenerates GenFilter.add / contains / build (Filter.Add, Filter.Contains, filter.Build) from /repo on every run; FilterTie.add_eq / contains_eq / build_eq / code_no_false_negative are part of this property's module; a hash function's Write, Sum32, Reset is a pure function of its seed and the key, the bit slice is a list, New's results m and k are parameters",
+                                     "extract/gotrans.go also regenerates GenLevel.recover; LevelTie.recover_table / stepFile_handles (every recovered handle carries filter.Build of the entries of its own file) are part of this property's module"],
         "assumptions": ["m > 0"],
         "explanation": "no false negatives for every hash family, k, m > 0 and entry list; the places where the engine builds filters (flush, compaction, recovery) are fingerprinted and every table's filter is asked for every key of the table after each of them (levels suite)",
     },
